@@ -75,9 +75,11 @@ def worker(args):
     else:
         if isinstance(spec, dict) and spec.get('debug_logging'):
             # an application that runs with logging turned up: every logger's DEBUG messages are
-            # built (and thrown away)
+            # built, formatted (arguments converted to text) and written to a sink
             import logging
-            logging.basicConfig(level=logging.DEBUG, handlers=[logging.NullHandler()], force=True)
+            sink = logging.StreamHandler(open(os.devnull, 'w'))
+            sink.setFormatter(logging.Formatter('%(asctime)s %(name)s %(levelname)s %(message)s'))
+            logging.basicConfig(level=logging.DEBUG, handlers=[sink], force=True)
         try:
             res = mod.run_shard(spec, args.tier, args.seed)
             if isinstance(spec, dict) and spec.get('optimize'):
